@@ -117,6 +117,8 @@ def toQ(x):
     if isinstance(x, float):
         if x != x or x in (float('inf'), float('-inf')):
             raise ValueError("non-finite float constant")
+        q = Q(x).limit_denominator(10 ** 9)
+        if float(q) == x: return _cnorm(q)
         return _cnorm(Q(repr(x)))
     raise TypeError(type(x))
 
@@ -625,9 +627,12 @@ class Frac:
         """decided equality (normal forms)"""
         o = Frac.of(o)
         if self.den == o.den:
-            return (self.num - o.num).is_zero()
-        L = Frac._lcm(self.den, o.den)
-        return (self.num * Frac._cofactor(L, self.den) - o.num * Frac._cofactor(L, o.den)).is_zero()
+            d = self.num - o.num
+        else:
+            L = Frac._lcm(self.den, o.den)
+            d = self.num * Frac._cofactor(L, self.den) - o.num * Frac._cofactor(L, o.den)
+        if d.is_zero(): return True
+        return reduce_poly(d).is_zero() if CTX.rules else False
 
     def vars(self):
         s = self.num.vars()
